@@ -203,8 +203,9 @@ def run(ctx):
         ctx.nontrivial(plan_key(p))
         st, clause, dr = verdicts[case["tid"]]
         if clause.startswith("machinery:"):
-            raise tlc.MachineryError("case rejected by the trace specification: %s plan=%s"
+            ctx.undecided("case rejected by the trace specification: %s plan=%s"
                                      % (clause, json.dumps(p)))
+            continue
         if dr and not p.get("short"):      # the design predicts outcomes of VALID stacks only
             drift += 1
             ctx.note_drift("design:SliceWindowOutcome", {"code": p["code"], "insize": p["insize"],
